@@ -30,6 +30,11 @@ type ObjIn struct {
 	MT2  int     `json:"mt2"`
 	Same bool    `json:"same_mm"` // MT2 shares MT1's metamethod functions (needed for __eq/__lt to apply)
 	Name string  `json:"name"`    // field / global name for getfield, setfield, getglobal, setglobal
+	// where the API call is made: by a host function reached through Path (empty: called from top level) that
+	// holds Held values on its list; Rep = 2: the call is made twice in a row (so is the Lua statement)
+	Path []Lvl `json:"path,omitempty"`
+	Held int   `json:"held,omitempty"`
+	Rep  int   `json:"rep,omitempty"`
 }
 
 var mmNames = []string{"__index", "__newindex", "__eq", "__lt", "__le", "__concat", "__len", "__tostring", "__metatable", "__call", "__index_t", "__newindex_t"}
@@ -257,53 +262,76 @@ func runObj(w *lib.Writer, in ObjIn, class string) {
 	}
 	var api []string
 	top0 := L.GetTop()
-	err := L.CallByParam(lua.P{Protect: true, NRet: 0, Fn: L.NewFunction(func(L *lua.LState) int {
+	reps := 1
+	if in.Rep > 1 {
+		reps = in.Rep
+	}
+	heldOK := true
+	host := func(L *lua.LState) int {
+		for i := 0; i < in.Held; i++ {
+			L.Push(lua.LNumber(4100 + i))
+		}
+		ltop := L.GetTop()
+		_, lcells := newCellEnc().dump(L)
 		A, B, K, V := L.GetGlobal("A"), L.GetGlobal("B"), L.GetGlobal("K"), L.GetGlobal("V")
-		switch in.Op {
-		case "gettable":
-			api = append(api, "ret:"+e.val(L.GetTable(A, K)))
-		case "getfield":
-			api = append(api, "ret:"+e.val(L.GetField(A, in.Name)))
-		case "settable":
-			L.SetTable(A, K, V)
-		case "setfield":
-			L.SetField(A, in.Name, V)
-		case "getglobal":
-			api = append(api, "ret:"+e.val(L.GetGlobal(in.Name)))
-		case "setglobal":
-			L.SetGlobal(in.Name, V)
-		case "equal":
-			api = append(api, "ret:"+fmt.Sprint(L.Equal(A, B)))
-		case "rawequal":
-			api = append(api, "ret:"+fmt.Sprint(L.RawEqual(A, B)))
-		case "lessthan":
-			api = append(api, "ret:"+fmt.Sprint(L.LessThan(A, B)))
-		case "concat":
-			api = append(api, "ret:s:"+noAddr(L.Concat(A, B)))
-		case "concat3":
-			api = append(api, "ret:s:"+noAddr(L.Concat(A, B, K)))
-		case "concat0":
-			api = append(api, "ret:s:"+L.Concat())
-		case "objlen":
-			api = append(api, fmt.Sprintf("ret:n:%x", math.Float64bits(float64(L.ObjLen(A)))))
-		case "getmetatable":
-			api = append(api, "ret:"+e.val(L.GetMetatable(A)))
-		case "tostringmeta":
-			api = append(api, "ret:"+e.val(L.ToStringMeta(A)))
-		case "next":
-			k, v := L.Next(A.(*lua.LTable), K)
-			if k == lua.LNil {
-				api = append(api, "ret:nil")
-			} else {
-				api = append(api, "ret:"+e.val(k), "ret:"+e.val(v))
+		for rep := 0; rep < reps; rep++ {
+			switch in.Op {
+			case "gettable":
+				api = append(api, "ret:"+e.val(L.GetTable(A, K)))
+			case "getfield":
+				api = append(api, "ret:"+e.val(L.GetField(A, in.Name)))
+			case "settable":
+				L.SetTable(A, K, V)
+			case "setfield":
+				L.SetField(A, in.Name, V)
+			case "getglobal":
+				api = append(api, "ret:"+e.val(L.GetGlobal(in.Name)))
+			case "setglobal":
+				L.SetGlobal(in.Name, V)
+			case "equal":
+				api = append(api, "ret:"+fmt.Sprint(L.Equal(A, B)))
+			case "rawequal":
+				api = append(api, "ret:"+fmt.Sprint(L.RawEqual(A, B)))
+			case "lessthan":
+				api = append(api, "ret:"+fmt.Sprint(L.LessThan(A, B)))
+			case "concat":
+				api = append(api, "ret:s:"+noAddr(L.Concat(A, B)))
+			case "concat3":
+				api = append(api, "ret:s:"+noAddr(L.Concat(A, B, K)))
+			case "concat0":
+				api = append(api, "ret:s:"+L.Concat())
+			case "objlen":
+				api = append(api, fmt.Sprintf("ret:n:%x", math.Float64bits(float64(L.ObjLen(A)))))
+			case "getmetatable":
+				api = append(api, "ret:"+e.val(L.GetMetatable(A)))
+			case "tostringmeta":
+				api = append(api, "ret:"+e.val(L.ToStringMeta(A)))
+			case "next":
+				k, v := L.Next(A.(*lua.LTable), K)
+				if k == lua.LNil {
+					api = append(api, "ret:nil")
+				} else {
+					api = append(api, "ret:"+e.val(k), "ret:"+e.val(v))
+				}
 			}
 		}
+		// the host function's own list is as before
+		if _, c := newCellEnc().dump(L); L.GetTop() != ltop || strings.Join(c, ";") != strings.Join(lcells, ";") {
+			heldOK = false
+		}
 		return 0
-	})})
+	}
+	var err error
+	callersOK := true
+	if len(in.Path) > 0 {
+		callersOK, err = chainPath(L, in.Path, nil, host)
+	} else {
+		err = L.CallByParam(lua.P{Protect: true, NRet: 0, Fn: L.NewFunction(host)})
+	}
 	if err != nil {
 		api = []string{"error"}
 	}
-	stackOK := L.GetTop() == top0
+	stackOK := L.GetTop() == top0 && heldOK
 	api = append(api, e.logOf()...)
 	api = append(api, e.readback(in)...)
 
@@ -321,10 +349,13 @@ func runObj(w *lib.Writer, in ObjIn, class string) {
 		w.GoFail(w.Add(lib.Case{Input: in, Class: class, Coq: "CObj 0 [] [1]"}), "operator chunk does not load: "+form)
 		return
 	}
-	L.Push(fn)
-	if err := L.PCall(0, lua.MultRet, nil); err != nil {
-		lu = []string{"error"}
-	} else {
+	for rep := 0; rep < reps; rep++ {
+		L.SetTop(top0)
+		L.Push(fn)
+		if err := L.PCall(0, lua.MultRet, nil); err != nil {
+			lu = []string{"error"}
+			break
+		}
 		n := L.GetTop() - top0
 		for i := 1; i <= n; i++ {
 			v := L.Get(top0 + i)
@@ -376,7 +407,10 @@ func runObj(w *lib.Writer, in ObjIn, class string) {
 		Nontrivial: hasLog, // a metamethod took part
 		Coq:        coq})
 	if !stackOK {
-		w.GoFail(id, "the API call left values on the stack")
+		w.GoFail(id, "the API call left values on the stack or disturbed the host function's list")
+	}
+	if !callersOK {
+		w.GoFail(id, "a caller found its locals changed after the API call")
 	}
 }
 
@@ -477,6 +511,22 @@ func genObj(r *lib.Rand) ObjIn {
 		if r.Chance(50) {
 			in.K = Operand{[]string{"1", "2", "4", `"x"`, `"absent"`, `"fb"`, "true", "2.5"}[r.Intn(8)]}
 		}
+	}
+	if r.Chance(40) {
+		// made by a host function deeper in a call path that holds values of its own
+		in.Path = genPath(r, r.Range(1, 3))
+		for k := range in.Path {
+			// the call may raise: no level catches the error, none enters the host function twice
+			switch in.Path[k].How {
+			case "pcall", "cbpp", "twice":
+				in.Path[k].How = "call"
+			}
+		}
+		fitPath(in.Path, RegOpt{Size: 256})
+		in.Held = r.Intn(4)
+	}
+	if r.Chance(25) {
+		in.Rep = 2
 	}
 	return in
 }
